@@ -195,19 +195,22 @@ func primaryFeature(a map[string]string) string {
 	if a["hay"] == "ill-formed" {
 		return "ill-formed-haystack"
 	}
+	// a multi-byte haystack comes first: the byte-level engines step byte by byte, so a match (an empty one, one starting with
+	// an assertion, one starting with a class that has an invalid-byte branch) can start or end INSIDE an encoded rune, whatever
+	// else the pattern contains
+	if a["nonascii"] == "true" && a["hay"] == "multibyte" {
+		return "nonascii-class-on-multibyte"
+	}
+	if a["hay"] == "multibyte" {
+		return "multibyte-haystack"
+	}
 	for _, f := range []string{"wordb", "linea", "texta", "fold", "lazy"} {
 		if a[f] == "true" {
 			return f
 		}
 	}
-	if a["nonascii"] == "true" && a["hay"] == "multibyte" {
-		return "nonascii-class-on-multibyte"
-	}
 	if a["nonascii"] == "true" {
 		return "nonascii-class"
-	}
-	if a["hay"] == "multibyte" {
-		return "multibyte-haystack"
 	}
 	if a["emptyok"] == "true" {
 		return "emptyok"
